@@ -1,8 +1,9 @@
-\* exhaustive (quick): all histories of <= 3 calls; 2 snapshots, 2 load handles; growth to 12 nodes
-CONSTANTS Slots = {1, 2}  Handles = {1, 2}  MaxLevel = 4  MaxNodes = 12  MutNodes = {3, 7}
+\* exhaustive (quick): all histories of <= 4 calls; 2 snapshots, 2 load handles; growth to 12 nodes
+CONSTANTS Slots = {1, 2}  Handles = {1, 2}  MaxLevel = 5  MaxNodes = 12  MutNodes = {7}
 INIT Init
 NEXT Next
 CONSTRAINT Bound
+VIEW View
 INVARIANT TypeOK
 INVARIANT LoadedIsWritten
 INVARIANT LoadedClauseWise
